@@ -25,6 +25,9 @@ import Verif.Model.Validity
     (x509 / sshp lines carrying e2e=1 print only `ok …` | `rej` | `crash`; `skip …` -> `skip`)
     sshgate op=renew|rekey unow=<int> anow= pnow= g= p= bd= allow=0|1 ova= ovb= ct=
                                                       -> `gate=0` | `gate=1 ` ++ renew/rekey result
+    sshapi op=renew|rekey unow= anow= pnow= g= p= bd= ova= ovb= ct= tls=0|1 -> `ok d= vaoff=0 id=<identity secs> idoff=0` | `rej` | `crash`
+    idsign va=<u64> vb=<u64>                          -> `ok id=<unix nb>,<unix na>`
+    migrate a=<claims> p=<claims> ssh=0|1             -> as `claims`, for the provisioner reloaded from the admin DB
     acme now=<time> def= rnb=<time> rna=<time>        -> `nb=<time> na=<time>` | `rej:500` (order not storable)
     overflow lo=<int> hi=<int> k=<int>                 -> the k-th wrap witness (seconds) for [lo,hi], see below
 -/
@@ -86,7 +89,7 @@ def rejS : Rej → String
   | .badType => "0:mod"
   | .typeUnset => "400:val" | .typeUnknown => "400:val" | .vaZero => "400:val" | .vbBeforeVa => "400:val"
   | .dvaZero => "403:dval" | .dpast => "403:dval" | .dvbBeforeVa => "403:dval" | .dbadType => "403:dval"
-  | .noValidity => "400:renew"
+  | .noValidity => "400:renew" | .renewPeriod => "400:renew"
 
 def outS {α : Type} (f : α → String) : Out α → String
   | .ok a => "ok " ++ f a
@@ -164,6 +167,21 @@ def eval (line : String) : Option String := do
              else do
                let tok : SshOpts := { va := (← td? (← get "kva")), vb := (← td? (← get "kvb")) }
                pure (sshSign cl m now user tok c0))
+    -- /ssh/sign with an identity CSR (idcsr=1): the identity certificate must pass the X.509 chain with
+    -- default dates, is then given the SSH certificate's validity (identityModifier) and goes to SoftCAS
+    let r := if (get "idcsr") = some "1" then
+        (match r with
+         | .ok c =>
+           let vnow := ((get "vnow").bind time?).getD now
+           (match x509Leaf cl .dflt now vnow ⟨0, 0⟩ { backdate := bd } with
+            | .ok _ => (match (identitySign c >>= fun i => softcasCreate now i bd) with
+                        | .ok _ => Out.ok c
+                        | .rej x => .rej x
+                        | .crash => .crash)
+            | .rej x => .rej x
+            | .crash => .crash)
+         | x => x)
+      else r
     pure ((if (get "e2e") = some "1" then e2eS else outS) (fun c => s!"va={c.va.toNat} vb={c.vb.toNat}") r)
   | "skip" => pure "skip"
   | "xrenew" =>
@@ -193,6 +211,39 @@ def eval (line : String) : Option String := do
                  let cl ← claimer? kv
                  pure (sshRekey cl anow (← time? (← get "pnow")) bd old))
       pure ("gate=1 " ++ e2eS (fun c => s!"d={(c.vb - c.va).toNat} vaoff={(c.va.toNat : Int) - unixOf (anow - bd)}") r)
+  | "sshapi" =>
+    -- /ssh/renew | /ssh/rekey over mTLS on an authorized certificate: new SSH certificate + identity certificate
+    let anow ← time? (← get "anow")
+    let bd ← int? (← get "bd")
+    let old : SshCert := ⟨(← u64? (← get "ova")), (← u64? (← get "ovb")), (← (← get "ct").toNat?)⟩
+    let sshPart ← (if (get "op") = some "renew" then pure (sshRenewDates anow bd old)
+                   else do
+                     let cl ← claimer? kv
+                     pure (sshRekey cl anow (← time? (← get "pnow")) bd old))
+    let head := fun (c : SshCert) => s!"ok d={(c.vb - c.va).toNat} vaoff={(c.va.toNat : Int) - unixOf (anow - bd)}"
+    if !renewGate (← int? (← get "unow")) false old then pure "rej"
+    else match sshPart with
+    | .crash => pure "crash"
+    | .rej _ => pure "rej"
+    | .ok c =>
+      if (get "tls") = some "1" then
+        match identityRenew anow bd old with
+        | .ok i => pure (head c ++ s!" id={(i.na - i.nb) / second} idoff={i.nb - trunc (anow - bd)}")
+        | .crash => pure "crash"
+        | .rej _ => pure "rej"
+      else pure (head c)
+  | "idsign" =>
+    let c : SshCert := ⟨(← u64? (← get "va")), (← u64? (← get "vb")), 1⟩
+    pure (e2eS (fun i => s!"id={unixOf i.nb},{unixOf i.na}") (identitySign c))
+  | "migrate" =>
+    let a ← claims? (← get "a")
+    let p ← claims? (← get "p")
+    let ssh := (get "ssh") = some "1"
+    let ac : Claimer := ⟨hardcoded, a⟩
+    if !ac.validate then pure "a=bad"
+    else match effective a (migrateClaims ssh p) with
+      | none => pure "a=ok p=bad"
+      | some c => pure s!"a=ok p=ok eff={fullS c.merged}"
   | "acme" =>
     let now ← time? (← get "now")
     match acmeNewOrder now (← int? (← get "def")) (← time? (← get "rnb")) (← time? (← get "rna")) with
